@@ -1,0 +1,29 @@
+//go:build verif
+
+// Machine-checked contracts for package rpc (comment-only; read by /verif/govc).
+package rpc
+
+//@ package github.com/basecomplextech/spec/rpc
+
+// ---- pooled call states (C18): a released state holds nothing of its previous call
+
+//@ func (*channelState).reset
+//@   safety[C18]
+//@   requires s != nil
+//@   modifies rpc.channelState.*
+//@   modifies status.*
+//@   resets[C18] s
+//@   retains s.recvMu     mutex (never copied, unlocked when the state is released)
+//@   retains s.sendMu
+
+//@ func (*serverChannelState).reset
+//@   safety[C18]
+//@   requires s != nil
+//@   modifies rpc.serverChannelState.*
+//@   modifies status.*
+//@   modifies types.*
+//@   modifies format.*
+//@   modifies prpc.*
+//@   resets[C18] s
+//@   retains s.recvMu
+//@   retains s.sendMu
